@@ -96,25 +96,45 @@ ShirokovDen(c, x) == IF ShStop(c, x) = 0 THEN ShFallThrough(c, x).den ELSE ShPai
 \* scalar there.  Every index at which X_i is a scalar at the point therefore gives an admissible pair, and so does the
 \* fall-through when X_N vanishes.
 ValidShirokovPair(c, x, num, den) ==
-  \/ \E i \in 1 .. ShN(c.d) : IsScalarMV(ShRun(c, x)[i].X) /\ ShPair(c, x, i).num = num /\ ShPair(c, x, i).den = den
-  \/ MI!IsZeroMV(ShRun(c, x)[ShN(c.d)].X) /\ ShFallThrough(c, x).num = num /\ ShFallThrough(c, x).den = den
+  LET r == ShRun(c, x)
+      N == ShN(c.d)
+      pair(i) == [num |-> IF i = 1 THEN MI!MVOne(c.d) ELSE MI!Sub(r[i - 1].X, ScalarOf(c.d, r[i - 1].c)), den |-> r[i].X[0]]
+  IN  \/ \E i \in 1 .. N : IsScalarMV(r[i].X) /\ pair(i).num = num /\ pair(i).den = den
+      \/ MI!IsZeroMV(r[N].X) /\ MI!Sub(r[N].X, ScalarOf(c.d, r[N].c)) = num /\ r[N].X[0] = den
 
 \* codegen_inv: the dispatch
 InvNum(c, x) == IF c.d < 6 THEN HitzerNum(c, x) ELSE ShirokovNum(c, x)
 InvDen(c, x) == IF c.d < 6 THEN HitzerDen(c, x) ELSE ShirokovDen(c, x)
 
 (***************************************************************************)
-(* Theorems                                                                  *)
+(* Theorems.  (TLC re-evaluates an operator application at every reference; *)
+(* the run of the recursion is therefore bound ONCE per operand in a LET.)    *)
 (***************************************************************************)
 Adjugate(c, x, num, den) == /\ MI!SameElement(G(c, x, num), ScalarOf(c.d, den))
                             /\ MI!SameElement(G(c, num, x), ScalarOf(c.d, den))
-HitzerOK(c, x) == c.d <= 5 => Adjugate(c, x, HitzerNum(c, x), HitzerDen(c, x))
-ShirokovTerminates(c, x) == IsScalarMV(ShRun(c, x)[ShN(c.d)].X)          \* Cayley-Hamilton: X_N is a scalar
-ShirokovExact(c, x) == \A i \in 1 .. ShN(c.d) : ShRun(c, x)[i].exact
-ShirokovOK(c, x) == ShirokovTerminates(c, x) /\ ShirokovExact(c, x) /\ Adjugate(c, x, ShirokovNum(c, x), ShirokovDen(c, x))
+HitzerOK(c, x) == c.d <= 5 => LET hn == HitzerNum(c, x) IN Adjugate(c, x, hn, MI!SP(c, x, hn)[0])
+\* the pair of the recursion from ONE evaluation of the run
+ShResult(c, x) ==
+  LET r == ShRun(c, x)
+      N == ShN(c.d)
+      stop == IF \E i \in DOMAIN r : IsNZScalarMV(r[i].X)
+              THEN CHOOSE i \in DOMAIN r : IsNZScalarMV(r[i].X) /\ \A j \in 1 .. i - 1 : ~IsNZScalarMV(r[j].X) ELSE 0
+      k == IF stop = 0 THEN N + 1 ELSE stop            \* fall-through = "index N + 1"
+  IN  [num |-> IF k = 1 THEN MI!MVOne(c.d) ELSE MI!Sub(r[k - 1].X, ScalarOf(c.d, r[k - 1].c)),
+       den |-> IF stop = 0 THEN r[N].X[0] ELSE r[stop].X[0],
+       terminates |-> IsScalarMV(r[N].X),
+       exact |-> \A i \in 1 .. N : r[i].exact]
+ShirokovTerminates(c, x) == ShResult(c, x).terminates
+ShirokovExact(c, x) == ShResult(c, x).exact
+ShirokovOK(c, x) == LET s == ShResult(c, x) IN s.terminates /\ s.exact /\ Adjugate(c, x, s.num, s.den)
 \* both generators agree on WHICH elements are invertible, and on the inverse (cross-multiplied)
 GeneratorsAgree(c, x) ==
-  c.d <= 5 => LET hn == HitzerNum(c, x) hd == HitzerDen(c, x) sn == ShirokovNum(c, x) sd == ShirokovDen(c, x) IN
-              /\ (hd = 0) <=> (sd = 0)
-              /\ MI!SameElement(MI!Scale(sd, hn), MI!Scale(hd, sn))
+  c.d <= 5 => LET hn == HitzerNum(c, x) hd == MI!SP(c, x, hn)[0] s == ShResult(c, x) IN
+              /\ (hd = 0) <=> (s.den = 0)
+              /\ MI!SameElement(MI!Scale(s.den, hn), MI!Scale(hd, s.num))
+\* den = 0 with a non-zero numerator exhibits a zero divisor: no inverse exists
+ZeroDenMeansZeroDivisor(c, x) ==
+  LET num == IF c.d < 6 THEN HitzerNum(c, x) ELSE ShResult(c, x).num
+      den == IF c.d < 6 THEN MI!SP(c, x, num)[0] ELSE ShResult(c, x).den
+  IN  (den = 0 /\ ~MI!IsZeroMV(num)) => MI!IsZeroMV(G(c, x, num))
 =============================================================================
